@@ -51,7 +51,10 @@ def make_secure(nfut=6):
 
 
 def canon_secure(p):
-    return (bytes(p._incoming_buffer), p.a2c_counter, p.c2a_counter, canon_resp(p.current_response), len(p.result_cbs))
+    from vt import canon
+
+    # generic walk: every attribute of the protocol object except back references and the cipher objects (keyed by the constant test keys)
+    return (canon_resp(p.current_response), len(p.result_cbs), canon.canon(p, depth=1, skip=("connection", "result_cbs", "current_response", "loop", "transport", "encryptor", "decryptor")))
 
 
 def observe(p):
